@@ -593,8 +593,26 @@ func vfC18clean(c *hx.Ctx) {
 			}
 		}
 	}
+	// the same clean path where the connection happens to be near the wrap of its sequence numbers or of the millisecond
+	// clock: a covering subset of the grid above, re-run with the 2^32 and 2^31 boundaries placed before, inside and after
+	// the transfer
+	base := len(cfgs)
+	for i := 0; i < base; i += max(base/hx.Pick(c, 160, 1200), 1) {
+		g := cfgs[i]
+		nseg := uint32(len(g.cfg.Writes[0])) + 2
+		for k, sn0 := range []uint32{-(nseg / 2), ^uint32(0), -(nseg + 3), 1<<31 - nseg/2, 1<<31 - 1} {
+			for j, clk0 := range []uint32{-(g.cfg.Delay + 3), ^uint32(24), ^uint32(149), ^uint32(999), 1<<31 - 40} {
+				if (k+j+i)%3 != 0 && c.Quick() {
+					continue
+				}
+				cf := g.cfg
+				cf.Sn0, cf.Clk0 = sn0, clk0
+				cfgs = append(cfgs, vfNamedCfg{fmt.Sprintf("%s/sn0=2^32%+d/clock0=2^32%+d", g.name, int32(sn0), int32(clk0)), cf})
+			}
+		}
+	}
 	c.UnitBudget = time.Until(c.Deadline) / 2
-	c.Explore("clean-path-grid", map[string]any{"configurations": len(cfgs),
+	c.Explore("clean-path-grid", map[string]any{"configurations": len(cfgs), "of_which_near_a_wrap": len(cfgs) - base,
 		"dimensions": "mode x nodelay tuple x one-way delay D (2D+interval < min RTO) x (snd_wnd, peer rcv_wnd) x stream/message x transfer length; bidirectional"}, 0,
 		vfChoiceRun(cfgs, "C18:"))
 }
